@@ -11,7 +11,9 @@ EVIDENCE = dict(
          "references) exhaustively and emits a hash-selected share of the transitions; each is executed on real "
          "Project/Module/Pattern/Note objects put into the pre state and the projected post state, outcome and "
          "return value are compared with the spec. mode B: random histories through the public API validated by "
-         "Trace_RVProject with Coherent evaluated on every real state. non-trivial = state changes or call refused.",
+         "Trace_RVProject with Coherent evaluated on every real state (also 265 modules). Actions include attach at the end "
+         "(loading=True), raw 16-bit note numbers, nested += lists, new_module with the parent keyword; MC_RVSystem is simulated and "
+         "explored exhaustively with transitions replayed by state injection. non-trivial = state changes or call refused.",
     explanation="states/transitions from the exhaustive bounded model; traces are real executions")
 
 
